@@ -171,15 +171,15 @@ hwloc_obj_t hwloc_get_obj_by_type_and_gp_index(hwloc_topology_t topology, hwloc_
 
 unsigned hwloc_get_closest_objs (struct hwloc_topology *topology, struct hwloc_obj *src, struct hwloc_obj **objs, unsigned max)
 {
-  struct hwloc_obj *parent, *nextparent, **src_objs;
+  struct hwloc_obj *parent, *nextparent;
   unsigned i,src_nbobjects;
   unsigned stored = 0;
 
   if (!src->cpuset)
     return 0;
 
-  src_nbobjects = topology->level_nbobjects[src->depth];
-  src_objs = topology->levels[src->depth];
+  /* src may be a memory object, its depth is negative, don't index the normal levels arrays with it */
+  src_nbobjects = hwloc_get_nbobjs_by_depth(topology, src->depth);
 
   parent = src;
   while (stored < max) {
@@ -194,9 +194,10 @@ unsigned hwloc_get_closest_objs (struct hwloc_topology *topology, struct hwloc_o
 
     /* traverse src's objects and find those that are in nextparent and were not in parent */
     for(i=0; i<src_nbobjects; i++) {
-      if (hwloc_bitmap_isincluded(src_objs[i]->cpuset, nextparent->cpuset)
-	  && !hwloc_bitmap_isincluded(src_objs[i]->cpuset, parent->cpuset)) {
-	objs[stored++] = src_objs[i];
+      struct hwloc_obj *obj = hwloc_get_obj_by_depth(topology, src->depth, i);
+      if (hwloc_bitmap_isincluded(obj->cpuset, nextparent->cpuset)
+	  && !hwloc_bitmap_isincluded(obj->cpuset, parent->cpuset)) {
+	objs[stored++] = obj;
 	if (stored == max)
 	  goto out;
       }
